@@ -801,6 +801,18 @@ def live_handle_rule(prog, rep, units):
                     continue
                 n += 1
                 cancels = [c for c in f.calls() if c.callee and (c.callee.endswith("_cancel") or c.callee.endswith("_free") or c.callee == "free") and any(a is not None and norm(a) == h for a in c.args) and f.dominates(c, e)]
+                # ... or the handle is first copied into a local and the copy is cancelled (clear, then cancel)
+                copies = set()
+                for x in f.all_elems():
+                    init = None
+                    if x.is_assign and x.op == "=" and norm(x.kid(0))[0] == "v" and norm(x.kid(1)) == h and f.dominates(x, e):
+                        copies.add(norm(x.kid(0)))
+                    if x.cls == "DeclStmt":
+                        for d in x.decls or []:
+                            if isinstance(d, dict) and d.get("init") and norm(f.elem(d["init"])) == h and (x.block.id in f.dominators().get(e.block.id, ()) or x.block.id == e.block.id):
+                                copies.add(("v", d["name"], d["id"]))
+                cancels += [c for c in f.calls() if c.callee and (c.callee.endswith("_cancel") or c.callee.endswith("_free") or c.callee == "free") and
+                            any(a is not None and norm(a) in copies for a in c.args) and e.block.id in (f.dominators().get(c.block.id, set()) | {c.block.id})]
                 rep.check(bool(cancels), "SLOT", "%s: %s is cancelled before the live handle is forgotten" % (f.name, show(h)), e.where,
                           "`%s` is executed where %s is known not to be NULL, and no cancel of it comes first: the operation stays armed with this request as its cookie"
                           % (e.text[:40], show(h)), function=f.name, construct="forget-live:" + h[2])
